@@ -158,6 +158,54 @@ theorem mux_inbound_never_panics_and_bounded (cfg : Cfg) (nAccept nConnect : Nat
   · have := hi.1; rw [hc] at this; omega
   · have := hi.2; rw [hc] at this; omega
 
+/-- **parked_frames_hold_permits.** In every reachable state of the inbound loop the semaphore accounting is exact:
+available count permits + number of parked frames **of any kind (OPEN, CLOSE and DATA alike)** = `read_frame_count`,
+and available size permits + parked payload bytes = `read_buffer_size`. -/
+theorem parked_frames_hold_permits (cfg : Cfg) (nAccept nConnect : Nat) (input : List Nat) (eof : Bool) (fuel : Nat) :
+    let s := (run fuel (St.init cfg nAccept nConnect input eof)).1
+    s.countAvail + s.live.length = s.cfg.readFrameCount ∧ s.sizeAvail + s.live.sum = s.cfg.readBufferSize :=
+  run_inv fuel _ (inv_init cfg nAccept nConnect input eof)
+
+/-- **control_frames_hold_permits.** An OPEN / CLOSE header for a stream whose consumer is parked takes one
+`read_frame_count` permit and keeps it (the frame is parked with payload size 0); when no permit is left the loop
+stops reading the transport. So a flood of 2-byte control headers is cut off after `read_frame_count` frames. -/
+theorem control_frames_hold_permits (s : St) (b0 b1 : Nat) (rest : List Nat) (d : Dispatched)
+    (hp : s.phase = .header) (hi : s.input = b0 :: b1 :: rest)
+    (hd : dispatch s.nAccept s.nConnect (headerOfBytes b0 b1) = .ok d) (hk : d.kind ≠ .data)
+    (ho : s.isOpened d = true) :
+    (s.countAvail = 0 → (step s).2 = some .blocked ∧ (step s).1.consumed = s.consumed + 2) ∧
+    (0 < s.countAvail → (step s).2 = none ∧ (step s).1.countAvail = s.countAvail - 1 ∧
+      (step s).1.live = 0 :: s.live) := by
+  have ht : s.take 2 = .ok ([b0, b1], { s with input := rest, consumed := s.consumed + 2 }) := by
+    unfold St.take
+    simp [hi]
+  unfold step
+  rw [hp]
+  simp only [ht, List.getD_cons_zero, List.getD_cons_succ, hd]
+  have ho' : (d.toConnect, d.id) ∈ s.opened := by
+    have : s.opened.contains (d.toConnect, d.id) = true := ho
+    simpa using this
+  cases hkk : d.kind with
+  | data => exact absurd hkk hk
+  | open_ =>
+    constructor
+    · intro h0; simp [h0]
+    · intro h1
+      have : ¬ s.countAvail = 0 := by omega
+      simp [this, St.deliver, St.isOpened, ho']
+  | close =>
+    constructor
+    · intro h0; simp [h0]
+    · intro h1
+      have : ¬ s.countAvail = 0 := by omega
+      simp [this, St.deliver, St.isOpened, ho']
+
+/-- a flood of CLOSE headers after one OPEN, `read_frame_count = 3`: three are parked, the fourth header is read and the
+loop blocks — 2 + 3·2 + 2 bytes taken from the transport, however long the flood is -/
+example : ((run 100 (St.init ⟨4, 16, 3⟩ 1 0 ([0, 32] ++ [0, 160, 0, 160, 0, 160, 0, 160, 0, 160, 0, 160, 0, 160]) false)).2,
+           (run 100 (St.init ⟨4, 16, 3⟩ 1 0 ([0, 32] ++ [0, 160, 0, 160, 0, 160, 0, 160, 0, 160, 0, 160, 0, 160]) false)).1.consumed)
+    = (some Outcome.blocked, 10) := by decide
+
 /-- **mux_inbound_terminates.** With `read_frame_size > 0` the loop reaches an outcome (end of stream, protocol
 error, blocked on permits, or waiting for more bytes) within `2·|input| + 4` steps on every input. -/
 theorem mux_inbound_terminates (cfg : Cfg) (nAccept nConnect : Nat) (input : List Nat) (eof : Bool)
